@@ -16,7 +16,9 @@ Qed.
 Lemma fact_tag_none G rk f : fact_tag G rk f = None <-> fact_ok G rk f = true.
 Proof.
   unfold fact_tag. destruct (fact_ok G rk f); [tauto|]. split; [|discriminate].
-  destruct f; [discriminate| |discriminate]. destruct (holds m h); discriminate.
+  destruct f; try discriminate.
+  - destruct (holds m h); discriminate.
+  - destruct (release_all ds acq) as [[|? ?]|]; discriminate.
 Qed.
 
 (* checker accepts => every static case is quiet, whatever it selects *)
@@ -32,6 +34,7 @@ Definition sel_of (f : fact) : fact -> bool :=
   match f with
   | FAcc me t _ _ => sel_access me t
   | FAcq me m _ _ => sel_acquire me m
+  | FRel me _ _ | FRet me _ _ => sel_return me
   | FErr me _ => sel_calls me
   end.
 
@@ -84,8 +87,8 @@ Proof.
   match goal with |- match ?l with _ => _ end = None => assert (E : l = []); [|now rewrite E] end.
   destruct (flat_map _ (entry_facts ms f)) as [|t0 l0] eqn:E; [reflexivity|exfalso].
   assert (Hin : In t0 (t0 :: l0)) by now left. rewrite <- E in Hin. clear E.
-  apply in_flat_map in Hin as [x [Hx Hin]]. destruct x as [me t a h| |]; [|destruct Hin|destruct Hin].
-  apply in_flat_map in Hin as [y [Hy Hin]]. destruct y as [me' t' a' h'| |]; [|destruct Hin|destruct Hin].
+  apply in_flat_map in Hin as [x [Hx Hin]]. destruct x as [me t a h| | | |]; try (destruct Hin; fail).
+  apply in_flat_map in Hin as [y [Hy Hin]]. destruct y as [me' t' a' h'| | | |]; try (destruct Hin; fail).
   destruct (String.eqb_spec t t') as [<-|]; [|destruct Hin]. cbn [andb] in Hin.
   destruct (mode_eqb a MW || mode_eqb a' MW) eqn:Ew; [|destruct Hin]. cbn [andb] in Hin.
   destruct (excluded h h') eqn:Ex; [destruct Hin|].
